@@ -64,7 +64,7 @@ impl Prop for C06 {
     }
     fn strategy(&self, _tier: Tier) -> BoxedStrategy<Case> {
         // ordinates: independent, or from a handful of values (so that verbatim-identical consecutive knots occur)
-        let ys = prop_oneof![4 => vec(gen::moderate(20), 40), 1 => vec(gen::any_finite(), 40), 2 => vec((0usize..3).prop_map(|i| [1.0, -2.0, 0.5][i]), 40)];
+        let ys = prop_oneof![4 => vec(gen::moderate(20), 40), 1 => vec(gen::any_finite(), 40), 2 => vec((0usize..3).prop_map(|i| [1.0, -2.0, 0.5][i]), 40), 1 => vec((0usize..6).prop_map(|i| [1e308, -1e308, f64::MAX, -f64::MAX, 1.5e308, -1.25e308][i]), 40)];
         (xs_strategy(), ys, vec(any::<u16>(), 6), vec(gen::moderate(8), 2), gen::common_scale(150))
             .prop_map(|(xs, ys, qs, extra, sc)| {
                 let n = xs.len();
@@ -131,6 +131,21 @@ impl Prop for C06 {
             ctx.label("strictly increasing, gaps >= eps");
         }
         ctx.nontrivial = n >= 3 && (out_of_order || near_eps || at_interior_knot);
+        // (2a) for EVERY finite input: a segment narrower than machine epsilon (exact width) is the constant at its
+        // left ordinate - no arithmetic on the ordinates is involved, so this holds for huge ordinates too
+        {
+            let eps_lo0 = d(EPS).sub(&Dy::pow2(-105));
+            for i in 0..n - 1 {
+                let w = d(xm[i + 1]).sub(&d(xm[i]));
+                if w.lt(&eps_lo0) {
+                    let c = pw.segments[i].poly.0;
+                    ctx.comparisons += 1;
+                    if !(c[1] == 0.0 && c[0] == ys[i]) {
+                        fail!("segment #{i} is narrower than machine epsilon (width {}) so it must be the constant y_{i} = {}, but it is {:?}; {}", w.show(), hex(ys[i]), c, describe());
+                    }
+                }
+            }
+        }
         // value clauses only for moderate magnitudes
         let moderate = xs.iter().chain(ys.iter()).all(|v| *v == 0.0 || (v.abs() >= 2.0f64.powi(-200) && v.abs() <= 2.0f64.powi(200)));
         if !moderate {
